@@ -13,3 +13,4 @@ func TestC17(t *testing.T)     { RunProp(t, propC17) }
 func TestC11(t *testing.T)     { RunProp(t, propC11) }
 func TestC14(t *testing.T)     { RunProp(t, propC14) }
 func TestC14Enum(t *testing.T) { RunEnum(t, propC14) }
+func TestC15(t *testing.T)     { RunProp(t, propC15) }
